@@ -6,7 +6,8 @@ from ..index import u, call_name, call_attr, walk_local, base_name
 from .. import flow, interp
 from ..fold import try_fold
 from ..util import stmts_with_env, calls_with_env, assignments_to, single_def, kwarg, param_names
-from .common import method, unconditional_in
+from .common import method, unconditional_in, atom_text
+from . import shared
 
 DL = 'vermouth/processors/do_links.py'
 MOL = 'vermouth/molecule.py'
@@ -269,4 +270,87 @@ def run(ck):
     read_attrs = {n.attr for n in ast.walk(mod.tree) if isinstance(n, ast.Attribute) and isinstance(n.ctx, ast.Load)}
     for fld in sorted({'non_edges', 'molecule_meta', 'patterns', 'removed_interactions'}):
         ck.ob('TAB-declared-consumed', DL, fld in read_attrs, 'do_links.py reads the link field .{}'.format(fld), key='TAB-declared-consumed|' + fld)
+    # ------------------------------------------------------------ helpers the matching and the removals rely on
+    molmod = idx.mod(MOL)
+    im = molmod.func('interaction_match')
+    am = molmod.func('attributes_match')
+    rmi = molmod.func('Molecule.remove_matching_interaction')
+    for f in (im, am, rmi):
+        ck.analysed(molmod, f)
+    pmd = single_def(im, 'parameters_match')
+    amd = single_def(im, 'atoms_match')
+    ok = False
+    if pmd is not None:
+        f = flow.to_formula(pmd)
+        names = {}
+        for k in flow.atoms_of(f):
+            if k[0] == 'truth' and k[1] == 'template_interaction.parameters':
+                names[k] = 'GIVEN'
+            elif k[0] == 'Eq' and set(k[1:]) == {'tuple(template_interaction.parameters)', 'tuple(interaction.parameters)'}:
+                names[k] = 'EQUAL'
+        ok = len(names) == len(flow.atoms_of(f)) == 2 and flow.equivalent(flow.rename(f, names), flow.parse_formula('not GIVEN or EQUAL'))[0]
+    ck.ob('DT-interaction-match', molmod.loc(im), ok, 'an interaction matches a template on its parameters when the template gives none or the full parameter tuples are equal (`{}`)'.format(
+        u(pmd)[:120] if pmd is not None else '?'), key='DT-interaction-match|parameters')
+    ck.ob('DT-interaction-match', molmod.loc(im), amd is not None and u(amd) == 'tuple(template_interaction.atoms) == tuple(interaction.atoms)',
+          'and on its atoms when the atom tuples are equal, in order', key='DT-interaction-match|atoms')
+    rets = stmts_with_env(im, lambda s_: isinstance(s_, ast.Return))
+    attr_false = [r for r in rets if try_fold(r[0].value, default=1) is False and any('attributes_match(' in atom_text(k) for k in flow.atoms_of(r[1]))]
+    meta_ret = [r for r in rets if u(r[0].value) == 'attributes_match(interaction.meta, template_interaction.meta)']
+    last_false = [r for r in rets if try_fold(r[0].value, default=1) is False and r not in attr_false]
+    ok = len(attr_false) == 1 and len(meta_ret) == 1 and len(last_false) == 1 and len(rets) == 3
+    if ok:
+        both = flow.AND(('atom', ('truth', u(amd))) if False else flow.to_formula(amd), flow.to_formula(pmd)) if amd is not None and pmd is not None else False
+        ok = flow.equivalent(last_false[0][1], flow.NOT(both))[0] and flow.implies(meta_ret[0][1], both)[0]
+        lp = [l for l in walk_local(im) if isinstance(l, ast.For) and u(l.iter) == 'zip(nodes, atom_attrs)']
+        nd = single_def(im, 'nodes')
+        ok = ok and len(lp) == 1 and nd is not None and u(nd) == '[molecule.nodes[atom] for atom in interaction.atoms]' and any(attr_false[0][0] is n for n in ast.walk(lp[0]))
+    ck.ob('DT-interaction-match', molmod.loc(im), ok, 'atoms and parameters must both match; then, for a removal template, every atom must match the attributes written for it, and the metadata must match', key='DT-interaction-match|atom-attrs')
+    # attributes_match: every template attribute must match (equal, or accepted by its predicate); ignored keys skipped
+    rets = stmts_with_env(am, lambda s_: isinstance(s_, ast.Return))
+    fl = [r for r in rets if try_fold(r[0].value, default=1) is False]
+    ok = len(fl) == 1 and try_fold(am.body[-1].value, default=0) is True
+    if ok:
+        lp = mod_enclosing = molmod.enclosing(fl[0][0], ast.For)
+        rel = stmts_with_env(am, lambda s_: s_ is fl[0][0], stmts=lp.body)
+        names = {}
+        for k in flow.atoms_of(rel[0][1]):
+            t = atom_text(k)
+            if k[0] == 'In' and k[1] == 'attr' and k[2] == 'ignore_keys':
+                names[k] = 'IGNORED'
+            elif k[0] == 'Eq' and set(k[1:]) == {'attributes.get(attr)', 'value'}:
+                names[k] = 'EQUAL'
+            elif k[0] == 'truth' and k[1] == 'isinstance(value, LinkPredicate)':
+                names[k] = 'ISPRED'
+            elif k[0] == 'truth' and k[1] == 'value.match(attributes, attr)':
+                names[k] = 'PREDOK'
+        ok = len(names) == len(flow.atoms_of(rel[0][1])) and \
+            flow.equivalent(flow.rename(rel[0][1], names), flow.parse_formula('not IGNORED and not EQUAL and not (ISPRED and PREDOK)'))[0] and \
+            u(lp.iter) == 'template_attributes.items()'
+    ck.ob('DT-attributes-match', molmod.loc(am), ok, 'an atom matches a template when every non-ignored template attribute is equal to the atom\'s, or is a predicate that accepts it',
+          key='DT-attributes-match')
+    dl_ = [s_ for s_ in walk_local(rmi) if isinstance(s_, ast.Delete)]
+    ok = len(dl_) == 1 and 'interaction_match(self, interaction, template_interaction)' in u(rmi) and isinstance(rmi.body[-1], ast.For) and rmi.body[-1].orelse \
+        and isinstance(rmi.body[-1].orelse[-1], ast.Raise)
+    ck.ob('DT-interaction-match', molmod.loc(rmi), ok, 'remove_matching_interaction deletes the first interaction that matches the template and raises when none does', key='DT-interaction-match|remove')
+    amc = [c for c in walk_local(mod.func('_atoms_match')) if isinstance(c, ast.Call) and call_name(c) == 'attributes_match']
+    ok = any(try_fold(kwarg(c, 'ignore_keys'), default=()) == ('order', 'replace', 'modifications') and [u(a) for a in c.args] == ['node1', 'node2'] for c in amc)
+    ck.ob('DT-attributes-match', mod.loc(mod.func('_atoms_match')), ok, 'link atoms are compared on every attribute except order, replace and modifications (handled separately)',
+          key='DT-attributes-match|atoms_match')
+    # ------------------------------------------------------------ how the parser builds the conditions a link carries
+    ffm = idx.mod(FF)
+    pe = ffm.func('_parse_edges')
+    shared.precedence(ck, ffm, pe, 'full_attributes', 'attributes', 'apply_to_all_nodes', 'non-edge / edge atom attributes: what the line writes overrides the link-wide attributes',
+                      'PREC-specific-wins|_parse_edges')
+    ne = [s_ for s_ in walk_local(pe) if isinstance(s_, ast.Expr) and call_attr(s_.value) == 'append' and 'non_edges' in u(s_)]
+    ck.ob('PREC-specific-wins', ffm.loc(pe), len(ne) == 1 and u(ne[0].value.args[0]) == '[prefixed_atoms[0][0], prefixed_atoms[1][1]]',
+          'a non-edge is stored as (anchor atom key, attributes of the forbidden partner)', key='PREC-specific-wins|non-edge-shape')
+    pla = ffm.func('_parse_link_atom')
+    ok = any(isinstance(s_, ast.Assign) and u(s_.targets[0]) == 'attributes' and shared.merge_winner(s_.value) is not None and
+             shared.merge_winner(s_.value)[0] == 'attributes' and '_apply_to_all_nodes' in shared.merge_winner(s_.value)[1] for s_ in walk_local(pla))
+    ck.ob('PREC-specific-wins', ffm.loc(pla), ok, 'link atom attributes: what the line writes overrides the link-wide attributes', key='PREC-specific-wins|_parse_link_atom')
+    tla = ffm.func('_treat_link_interaction_atoms')
+    shared.precedence(ck, ffm, tla, 'intermediate', 'attributes', 'context._apply_to_all_nodes', 'atoms of link interactions: what the line writes overrides the link-wide attributes',
+                      'PREC-specific-wins|_treat_link_interaction_atoms')
+    shared.no_monomorphism(ck, [DL, MOL])
+    shared.truthy_zero(ck, [DL])
     ck.assume('induced-ness and completeness of the networkx matcher, and "no unjustified interaction", are not decided')
